@@ -247,3 +247,11 @@ for t in T3:
         add(H("fs::verif::stats%s_%s" % (t, c), ["C05", "C13"],
               "stats(): cached count returned without touching the device; unknown => recount == zero entries of the table, cached; never writes, never sets dirty",
               GLUE))
+
+# ------------------------------------------------------------------ dir.rs / dir_entry.rs
+add(
+    H("dir::verif::sng_new_total", ["C15"],
+      "ShortNameGenerator::new (runs before name validation in create_file/create_dir/rename) never panics",
+      "every valid UTF-8 string of 0..=5 bytes (empty, multi-byte first character, dots/spaces only, ...); memchr stubs",
+      stubs=True),
+)
